@@ -146,6 +146,8 @@ func (dsp *DataStreamProcessor) ConfigureTrigger(state TriggerState) error {
 }
 
 func (dsp *DataStreamProcessor) processSegment(segment *DataSegment) {
+	verifAcc("pst", dsp, true)
+	verifAcc("ptrig", dsp, false)
 	dsp.DecimateData(segment)
 	dsp.stream.AppendSegment(segment)
 	primaryRecords := dsp.TriggerData()
@@ -156,6 +158,8 @@ func (dsp *DataStreamProcessor) processSegment(segment *DataSegment) {
 }
 
 func (dsp *DataStreamProcessor) processSecondaries(secondaryFrames []FrameIndex) {
+	verifAcc("pst", dsp, true)
+	verifAcc("ptrig", dsp, false)
 	secondaryRecords := dsp.TriggerDataSecondary(secondaryFrames)
 	dsp.AnalyzeData(secondaryRecords)                                       // add analysis results to records in-place
 	if err := dsp.DataPublisher.PublishData(secondaryRecords); err != nil { // publish and save data, when enabled
